@@ -693,12 +693,32 @@ where
     fn try_reallocate(&mut self, new_capacity: usize) -> Result<(), TryReserveError> {
         let hasher = make_hasher(&self.hash_builder);
         let mut old_table = RawTable::try_with_capacity(new_capacity)?;
+
+        // Hashing calls into user code, which may panic. All hashes are
+        // computed before any entry is moved, so that a panic leaves the cache
+        // as it was. Otherwise the list would keep pointing into the old
+        // table, which is freed while unwinding.
+
+        let mut hashes = vec![0; self.table.len()];
+        let mut index = 0;
+
+        for bucket in unsafe { self.table.iter() } {
+            hashes[index] = hasher(unsafe { bucket.as_ref() });
+            index += 1;
+        }
+
         mem::swap(&mut self.table, &mut old_table);
+        index = 0;
+
+        // RawTable::into_iter visits the buckets in the same order as
+        // RawTable::iter did above.
 
         for entry in old_table.into_iter() {
+            let hash = hashes[index];
+            index += 1;
             let mut prev_entry = entry.prev;
             let mut next_entry = entry.next;
-            let bucket = self.table.insert(hasher(&entry), entry, &hasher);
+            let bucket = self.table.insert(hash, entry, &hasher);
             let entry_ptr = EntryPtr::new(bucket.as_ptr());
             prev_entry.get_mut().next = entry_ptr;
             next_entry.get_mut().prev = entry_ptr;
